@@ -431,6 +431,7 @@ func cmdReplay(args []string) {
 	fs := flag.NewFlagSet("replay", flag.ExitOnError)
 	file := fs.String("file", "", "replay file")
 	trace := fs.Bool("trace", false, "print the tail of the scheduling trace")
+	repeat := fs.Int("repeat", 0, "execute the file this many more times in the same process and print the hashes")
 	fs.Parse(args)
 	rp, h, cfg, err := core.ReadReplay(*file)
 	if err != nil {
@@ -451,6 +452,11 @@ func cmdReplay(args []string) {
 		os.Exit(1)
 	})
 	o := core.Exec(h, cfg, rp.Script, true, *trace)
+	for i := 0; i < *repeat; i++ {
+		// self-test: the same scripted execution again in this process must give the same trace hash
+		o2 := core.Exec(h, cfg, rp.Script, true, false)
+		fmt.Printf("REPEAT %d hash=%016x steps=%d (first %016x steps=%d)\n", i+1, o2.Hash, o2.Steps, o.Hash, o.Steps)
+	}
 	hash := fmt.Sprintf("%016x", o.Hash)
 	found := false
 	for _, v := range o.For(rp.Property) {
